@@ -1,14 +1,51 @@
-(* Properties/C16.v — cache persistence is faithful: every field of every
-   record survives the write/read cycle (Cache.write / Cache.read_immutable as
-   modelled in Model/Persist.v); values come back JSON-equal. *)
+(* Properties/C16.v — cache persistence is faithful.
+   Record level (Proofs/PersistLaws.v): every field of every record survives the write/read
+   cycle (Cache.write / Cache.read_immutable as modelled in Model/Persist.v); values come
+   back JSON-equal.
+   Cache level (C16_cache_roundtrip, Proofs/CacheRT*.v): a cache whose tables hold a
+   well-formed forest (`writable`: no entry in progress, records well formed, legal
+   directory names, sanitized versions — what a committed build records) is written, read
+   back as ReadOk c' with the same build name, JSON-equal versions, the same created
+   directories, the same forest (every record normalised: op_equiv), the derived tables
+   (file by path, subbuild by key) those of the forest entry by entry, and c' is a fixed
+   point of a second cycle.  Refusals: Proofs/CacheRTRefuse.v (wrong software / version /
+   shape -> ReadRuntime or ReadMalformed; m_build / m_clean then refuse with the world
+   untouched).  NOT a theorem: that the cache a committed build of the mechanism model holds
+   satisfies `writable` (stated in CacheRTOpen.v; checked by computation on three builds in
+   CacheRTEx.v, and by T2/T3 on every generated history). *)
 From Coq Require Import List String Bool ZArith.
 Open Scope Z_scope. Open Scope string_scope. Open Scope list_scope.
 From FB.Base Require Import PyVal Fs.
 From FB.Gen Require Import JsonUtilGen.
 From FB.Spec Require Import JsonSpec.
 From FB.Model Require Import Types SimpleOps Persist PersistSpec.
-From FB.Proofs Require Import PersistLaws.
+From FB.Proofs Require Import JsonLaws PersistLaws CacheRTDefs CacheRTLaws CacheRTTables CacheRTCycle CacheRTForest CacheRTMain.
+From Coq Require Import Permutation.
 Import ListNotations.
+
+Theorem C16_cache_roundtrip : forall c roots, writable c roots ->
+  exists j c',
+    cache_to_json c = Some j /\ cache_of_json (Some j) = ReadOk c' /\
+    c_name c' = c_name c /\
+    c_fvers c' = norm_val (c_fvers c) /\ is_equal (c_fvers c) (c_fvers c') = true /\
+    (forall p, mem_path p (c_dirs c') = mem_path p (c_dirs c)) /\
+    (paths_nodup (c_dirs c) = true -> c_dirs c' = c_dirs c) /\
+    c_built c' = [] /\
+    c' = tables_of (c_name c') (c_fvers c') (c_dirs c') (map norm_op roots) /\
+    all2 op_equiv roots (map norm_op roots) = true /\
+    (forest_good roots -> cache_forest c' = Some (map norm_op roots)) /\
+    c_files c' = map norm_fentry (c_files (tables_of (c_name c) (c_fvers c) (c_dirs c) roots)) /\
+    c_subs c' = map norm_sentry (c_subs (tables_of (c_name c) (c_fvers c) (c_dirs c) roots)) /\
+    (tables_from_forest c roots ->
+       (forall p, cache_get_file c' p = option_map norm_op (cache_get_file c p)) /\
+       (forall p, cache_created_file c' p = cache_created_file c p) /\
+       (forall k, subs_get (c_subs c') k = option_map (option_map norm_op) (subs_get (c_subs c) k))) /\
+    (tables_perm_forest c roots ->
+       Permutation (c_files c') (map norm_fentry (c_files c)) /\
+       Permutation (c_subs c') (map norm_sentry (c_subs c))) /\
+    (forest_good roots ->
+       exists j', cache_to_json c' = Some j' /\ cache_of_json (Some j') = ReadOk c').
+Proof. exact cache_roundtrip. Qed.
 
 (* writing a well-formed record, passing it through the text layer and parsing
    it gives the same record with every value in normal form ... *)
